@@ -362,7 +362,9 @@ pub fn profile(name: &str) -> Profile {
             w.push((DeleteAll, 3));
             w.push((DeleteBatch, 6));
             w.push((ChangeSet, 6));
-            w.push((LazyInsert, 4));
+            w.push((LazyInsert, 6));
+            w.push((LazyRemove, 8));
+            w.push((LazyInsertAll, 2));
             w.push((Insert, 10));
             Profile {
                 name: "faults",
@@ -675,7 +677,13 @@ impl Gen {
         for _ in 0..8 {
             let cat = self.prof.weights[self.rng.weighted(&weights)].0;
             if let Some(k) = self.gen_cat(ex, cat) {
-                return k;
+                // some generic-storage accesses go through the by-reference overloads
+                let wrap = match &k {
+                    OpKind::Insert { generic: true, .. } | OpKind::Get { read: true, .. } => self.rng.chance(1, 2),
+                    OpKind::GetMut { .. } | OpKind::GetMutOrDefault { .. } => self.rng.chance(1, 3),
+                    _ => false,
+                };
+                return if wrap { OpKind::ByRef(Box::new(k)) } else { k };
             }
         }
         OpKind::CreateNow(vec![])
